@@ -230,6 +230,21 @@ def selectTimeout : Option (Int × Int) → Int
   | none => -1
   | some (sec, usec) => if sec ≥ 2147483 then 2147483647 else sec * 1000 + (usec + 999) / 1000
 
+/-- the carry into / out of the microseconds after subtracting two `struct timeval`s field by field
+    (`if (tleft.tv_usec < 0) … else if (tleft.tv_usec >= 1000000) …`) -/
+def tvCarry (sec usec : Int) : Int × Int :=
+  if usec < 0 then (sec - 1, usec + 1000000)
+  else if usec ≥ 1000000 then (sec + 1, usec - 1000000)
+  else (sec, usec)
+
+/-- the EINTR branch of `events_network_select`: what is left, when the clock reads `tnow`, of the
+    wait `tv` that started when it read `tstart` (`tleft = tv - (tnow - tstart)`), converted like
+    the original timeout; 0 once nothing is left -/
+def timeLeft (tv : Int × Int) (tstart tnow : Nat) : Int :=
+  let left := tvCarry (tv.1 - (((tnow / 1000000 : Nat) : Int) - ((tstart / 1000000 : Nat) : Int)))
+                      (tv.2 - (((tnow % 1000000 : Nat) : Int) - ((tstart % 1000000 : Nat) : Int)))
+  if left.1 < 0 then 0 else selectTimeout (some left)
+
 /-! ## programs, environment, state -/
 
 structure Script where
@@ -348,15 +363,25 @@ def doevent (s : State) (id : Nat) : State × Int :=
 def pollEntries (fds : Array PollFd) (revs : PollFd → Bits) : List PollEntry :=
   fds.toList.map (fun e => { fd := e.fd, ev := e.ev, rev := revs e })
 
+/-- the timeout of the poll that follows an EINTR: `wait = some (tv, tstart)` when the wait is finite
+    and not zero (`timeout > 0` before the loop; `tv` = the requested time, `tstart` = the clock
+    reading taken before the first poll) — such a wait goes on with what is left of `tv` by the clock
+    (`if (timeout > 0) { … }`); an infinite wait and a zero timeout are simply restarted -/
+def nextTimeout (wait : Option ((Int × Int) × Nat)) (timeout : Int) (clock : Nat) : Int :=
+  match wait with
+  | some (tv, tstart) => if timeout > 0 then timeLeft tv tstart clock else timeout
+  | none => timeout
+
 /-- the `while (poll(...) == -1)` loop of `events_network_select`, consuming the answer queue `q`;
-    an empty queue answers "nothing ready" -/
-def pollLoop (s : State) (timeout : Int) : List PollAns → State
+    an empty queue answers "nothing ready"; after EINTR (and no interrupt request) poll is called
+    again with `nextTimeout` -/
+def pollLoop (s : State) (wait : Option ((Int × Int) × Nat)) (timeout : Int) : List PollAns → State
   | [] => answer s timeout 0 [] []
   | .ans adv a :: rest => answer s timeout adv a rest
   | .eintr adv :: rest =>
       let s1 := emit { s with clock := s.clock + adv, pollq := rest }
                   (.poll timeout adv (pollEntries s.net.fds (fun _ => {})) .eintr)
-      if s1.intr then s1 else pollLoop s1 timeout rest
+      if s1.intr then s1 else pollLoop s1 wait (nextTimeout wait timeout s1.clock) rest
 where
   answer (s : State) (timeout : Int) (adv : Nat) (a : List (Nat × Bits)) (rest : List PollAns) : State :=
     let nready := (s.net.fds.toList.filter (fun e => (maskAns a e).any)).length
@@ -370,9 +395,14 @@ where
       emit { s with clock := s.clock + adv', pollq := rest, net := { s.net with fds := fds' } }
         (.poll timeout adv' (pollEntries s.net.fds (maskAns a)) .ok)
 
+/-- the clock reading `events_network_select` takes before a wait that may block for a finite time
+    (`if ((timeout > 0) && monoclock_get(&tstart))`) -/
+def waitStart (s : State) (tv : Option (Int × Int)) : Option ((Int × Int) × Nat) :=
+  if selectTimeout tv > 0 then tv.map (fun t => (t, s.clock)) else none
+
 /-- `events_network_select(tv, &interrupt_requested)` -/
 def netSelect (s : State) (tv : Option (Int × Int)) : State :=
-  let s1 := pollLoop s (selectTimeout tv) s.pollq
+  let s1 := pollLoop s (waitStart s tv) (selectTimeout tv) s.pollq
   { s1 with net := { s1.net with scan := if s1.net.fds.size = 0 then none else some (s1.net.fds.size - 1) } }
 
 /-- `events_timer_min(&tv)` -/
